@@ -25,7 +25,8 @@ LEVEL_TEXT = {
  "C07": dict(text="Theorem C07_exact_after_every_history: Clean (nothing under cas/ but the blobs of the current contents at their canonical paths, staging/ empty) "
                   "is preserved by every API history; C07_nothing_less: every content has its blob. K2 compares directory listings after every operation; "
                   "the oracle compares the real listing with the set of live contents.",
-             note=BASE_NOTE + "Sequential, error-free histories (the property's premise). The concurrent quiescence clause is covered by the concurrent correspondence."),
+             note=BASE_NOTE + "Error-free histories (the property's premise): sequential ones by C07_exact_after_every_history, concurrent programs at quiescence by "
+                              "C07_exact_at_quiescence_concurrent (exactly the referenced blobs, under every schedule, provided no call returned an error)."),
  "C11": dict(text="Theorems C11_at_most_one_live, C11_loser_noninterference (a losing open is the identity on the directory), C11_release_by_drop/kill, "
                   "C11_clones_keep_the_lock, C11_racing_opens over the OpenLock model, for all event sequences; over the inode-level model OpenLock2 (open(LOCK) and flock "
                   "as separate steps, name->inode binding, per-inode locks): C11_exclusive_under_any_interleaving (however the two halves of racing opens interleave "
@@ -42,7 +43,8 @@ LEVEL_TEXT = {
  "C13": dict(text="Theorem C13_abort_identity: an abandoned transaction returns with memory and filesystem unchanged (same files, same directories), all its calls are "
                   "on its own staging file; C13_abort_preserves_state: invariant, exactness and CAS naming preserved. K2: aborts at random positions, "
                   "observation before == after on the real library, trace only staging.",
-             note=BASE_NOTE + "Partial: the concurrent clause (another transaction on the same key in flight) is covered by the concurrent correspondence only."),
+             note=BASE_NOTE + "The concurrent clause (another transaction on the same key open or committing) is C13_abort_touches_nothing_shared in the concurrent model: an "
+                              "abandoned transaction never registers an intent, takes no lock and changes no shared state; K6 runs aborts next to commits on the same key."),
  "C16": dict(text="Theorems C16_*: op / snapshot / typed-op / record / segment / path round trips for all values within the format's size fields, decoders total by "
                   "construction with allocation measure bounded by the input length, key orders are strict total orders and numeric on integer keys. "
                   "K1: the real encoders/decoders on generated and malformed inputs vs the model, under catch_unwind with a counting allocator.",
@@ -151,8 +153,9 @@ LEVEL_TEXT.update({
                   "and the Async counterexample. K3: power-loss images built from the REAL recorded call trace (shim log with data) for every cut point x every subset "
                   "of files with unsynced bytes, recovered by the real library and compared with the model's `lose` images and with the C03 oracle.",
              note=BASE_NOTE + "Power-loss model as worded in the property (unsynced bytes lost, directory operations persist in order). The history theorem treats bytes that "
-                              "survived a power loss as durable afterwards (`settle`); the variant without it is proved only when earlier losses hit all segment files "
-                              "(C09_powerloss_partial in proofs/PowerLossHist.v)."),
+                              "survived a power loss as durable afterwards (`settle`): after a reboot a file's content is what the disk holds, so this is the physical reading "
+                              "of the model; a variant in which surviving bytes may still vanish at a LATER power loss is proved only when earlier losses hit all segment "
+                              "files (C09_powerloss_partial in proofs/PowerLossHist.v). C09_first_open_powerloss covers a power loss inside the very first open."),
  "C15": dict(text="Theorems C15_lock_order (every code path of the model acquires I < S < W, W never held across a step), C15_deadlock_free (every reachable state with "
                   "unfinished threads has an enabled thread), C15_progress (any schedule makes at most total_work steps), C15_calls_complete. K6/K7: the real lock bits at "
                   "every scheduling point equal the model's, every worker reaches its next point within the time-out under every explored schedule (a lock taken without a "
